@@ -10,6 +10,8 @@ pub enum POp {
     Unblock,
     /// whole-server scenarios only: the producer's connection is closed
     Close,
+    /// whole-server scenarios only: the producer connects now and stays silent until its next push
+    Connect,
 }
 
 #[derive(Clone, Debug)]
@@ -57,6 +59,8 @@ pub fn gen(rng: &mut Rng) -> Scenario {
             match rng.below(8) {
                 0 | 1 | 2 => ops.push(COp::Pop),
                 3 => ops.push(COp::Try),
+                // now and then the largest timeout there is (`Duration::MAX`): waits like `pop`
+                4 if rng.chance(1, 6) => ops.push(COp::Timeout(u64::MAX)),
                 4 | 5 | 6 => ops.push(COp::Timeout(tmo)),
                 _ => ops.push(COp::Sleep(*rng.pick(&[100u64, tmo / 2, tmo]))),
             }
@@ -66,6 +70,11 @@ pub fn gen(rng: &mut Rng) -> Scenario {
     Scenario { prods, cons }
 }
 
+/// `u64::MAX` stands for `Duration::MAX`
+pub fn dur_of(us: u64) -> Duration {
+    if us == u64::MAX { Duration::MAX } else { Duration::from_micros(us) }
+}
+
 pub fn enc_p(ops: &[POp]) -> String {
     ops.iter()
         .map(|o| match o {
@@ -73,6 +82,7 @@ pub fn enc_p(ops: &[POp]) -> String {
             POp::Push(v) => format!("p{}", v),
             POp::Unblock => "u".to_string(),
             POp::Close => "x".to_string(),
+            POp::Connect => "c".to_string(),
         })
         .collect::<Vec<_>>()
         .join(",")
@@ -119,7 +129,7 @@ pub fn run(id: usize, rng: &mut Rng) -> String {
                         COp::Timeout(t) => {
                             sched::log(&format!("call to{}", t));
                             h.lock().unwrap()[ci].push(format!("to{}:{}:-:blocked", t, t0));
-                            (format!("to{}", t), Some(q.pop_timeout(Duration::from_micros(t))))
+                            (format!("to{}", t), Some(q.pop_timeout(dur_of(t))))
                         }
                         COp::Sleep(d) => {
                             stdx::thread::sleep(Duration::from_micros(d));
@@ -150,7 +160,7 @@ pub fn run(id: usize, rng: &mut Rng) -> String {
                             sched::log("unblock");
                             q.unblock()
                         }
-                        POp::Close => {}
+                        POp::Close | POp::Connect => {}
                     }
                 }
             });
